@@ -18,6 +18,7 @@ const FLAGS: Flags = Flags {
     framing: true,
     flush: false,
     help_on: true,
+    complete: false,
 };
 
 pub fn check() -> Check {
